@@ -14,17 +14,17 @@ RULE = ("case = (protocol version 2|3; 48-bit device id; for V3 a 64-byte token 
         "applied = full settable state; initial = independent device state incl. display, sensors, filter flag; per-exchange "
         "delivery script: cut set and inter-chunk gap (V3: any cut set incl. byte-by-byte and coalescing; V2: one segment per "
         "packet) and 0..3 unsolicited frames before/after the solicited reply from {duplicate of the reply, spontaneous 0xC0 "
-        "report of the old/current state, 0xA0/0xA1 reports, type-5 0xB5 notification}; optionally the device pushes such frames - one, or a backlog of up to 100 - on the idle connection before the apply, and the client may then stay idle for up to 30 h; the unit forgets a V3 session key 12 h + 1 min after the handshake; optionally a poll of client A is still in flight when A applies; optionally the unit hangs up after every answer - FIN or RST, seen by the client's event loop after or in the same pass as the answer; optionally the host's local time zone ends or begins daylight saving time during the idle period). (a) client A refreshes, sets every "
+        "report of the old/current state, 0xA0/0xA1 reports, type-5 0xB5 notification, a checksum-valid property report whose last record is cut short}; optionally the device pushes such frames - one, or a backlog of up to 100 - on the idle connection before the apply, and the client may then stay idle for up to 30 h; the unit forgets a V3 session key 12 h + 1 min after the handshake; optionally a poll of client A is still in flight when A applies; optionally (V3) A has just abandoned an explicit re-authentication whose handshake reply arrives late; optionally the unit hangs up after every answer - FIN or RST, seen by the client's event loop after or in the same pass as the answer; optionally the host's local time zone ends or begins daylight saving time during the idle period). (a) client A refreshes, sets every "
         "attribute, apply(): the model device's state decoded with its own vendor-layout decoder must equal applied field by "
         "field, non-settable fields unchanged, no frame rejected, every packet carries the configured device id, and A's "
         "attributes equal applied. (b) a fresh client B (new object, connection, handshake) refresh(): B's attributes equal the "
         "model's state (enum members / raw custom fan), sensor temperatures by C11's predicate, online and supported. (c) optionally the history continues: another party (client B, or the remote control) changes the unit, then client A applies the same state again and the unit must be in it again. "
         "Non-trivial: applied != initial in >= 3 fields and (V3 or setpoint outside 17..30 or half degree or a cut inside a "
         "packet or an unsolicited frame). Distinct by whole case.")
-ASSUMPTIONS = ["a unit that hangs up after every answer is not combined with two requests outstanding at once (the second request is then lost with the connection: a fault, C08's domain)", "V2 has no stream reassembly by design: V2 replies are delivered one packet per segment (generator soundness restriction, DESIGN C01 N)",
+ASSUMPTIONS = ["two requests outstanding at once are only generated on an established connection (when both callers first have to (re)connect or re-authenticate, the unchanged library lets an AttributeError escape LAN.send: concurrent connection set-up is in no listed property's domain; noted in DESIGN 9.6 round 13)", "a unit that hangs up after every answer is not combined with two requests outstanding at once (the second request is then lost with the connection: a fault, C08's domain)", "V2 has no stream reassembly by design: V2 replies are delivered one packet per segment (generator soundness restriction, DESIGN C01 N)",
                "the model device echoes its state after a 0x40 command as real devices do"]
 
-TOKENS = ["DUP", "STATE", "STATE_OLD", "A0", "A1", "B5N"]
+TOKENS = ["DUP", "STATE", "STATE_OLD", "A0", "A1", "B5N", "B1X"]
 # the host's local time zone and the (UTC) instant the case starts at: the evening before daylight saving time ends / begins
 ZONES = [{}, {}, {"tz": "CET-1CEST,M3.5.0,M10.5.0/3", "start": [2024, 10, 26, 20, 0]}, {"tz": "EST5EDT,M3.2.0,M11.1.0", "start": [2024, 11, 3, 2, 0]},
          {"tz": "CET-1CEST,M3.5.0,M10.5.0/3", "start": [2024, 3, 30, 20, 0]}]
@@ -99,6 +99,20 @@ def _check_once(case: dict):
             # ... and client A stays idle for a long time (around or past the 12 h session lifetime on V3), with any such reports unread
             import asyncio
             await asyncio.sleep(case["idle_hours"] * 3600.0)
+        if case.get("reauth_abandoned") and version == 3:
+            # history: client A re-authenticates explicitly on its live connection, the unit is slow to answer the handshake (1 s) and
+            # the caller gives up after 0.5 s; the reply arrives afterwards.  Then A applies.
+            import asyncio
+            dev.hs_script = [("genuine", {"delay": 1.0})]
+            t_auth = asyncio.ensure_future(a.authenticate(token, key))
+            await asyncio.sleep(0.5)
+            t_auth.cancel()
+            try:
+                await t_auth
+            except BaseException:
+                pass
+            await asyncio.sleep(case["reauth_abandoned"])
+            dev.hs_script = []
         bg = None
         if case.get("inflight"):
             # schedule: a poll of the same object is still waiting for its answer (request sent 0.1 s ago, the unit takes 0.3 s) when the
@@ -177,7 +191,7 @@ def _check_once(case: dict):
             return (f"{who[0]}/indoor", f"indoor {got['indoor']!r} for raw {st_after.indoor_raw} tenths {st_after.indoor_tenths}")
         if not acutil.temp_ok(got["outdoor"], st_after.outdoor_raw, st_after.outdoor_tenths, st_after.fahrenheit):
             return (f"{who[0]}/outdoor", f"outdoor {got['outdoor']!r} for raw {st_after.outdoor_raw} tenths {st_after.outdoor_tenths}")
-    if version == 3 and res["conns"] != 2 and not case.get("hangup"):
+    if version == 3 and res["conns"] != 2 and not case.get("hangup") and not case.get("reauth_abandoned"):
         return ("connections", f"{res['conns']} connections for two clients")
     if "model_again" in res:
         d0 = acutil.diff_model(res["model_other"], acutil.expected_model_fields(res["other"]))
@@ -247,8 +261,8 @@ def cases():
         optional={"idle_push": st.lists(st.sampled_from(["STATE", "STATE", "A0", "B5N"]), min_size=1, max_size=3), "again": st.sampled_from([None, "client", "remote"]),
                   "idle_hours": st.sampled_from([0, 0, 1, 11.9, 12.5, 13, 30]), "push_repeat": st.sampled_from([1, 1, 1, 40, 100]),
                   "hangup": st.sampled_from([None, None, "fin", "rst", "fin_same", "rst_same"]),
-                  "inflight": st.sampled_from([False, False, False, True]),
-                  "zone": st.sampled_from(ZONES)}).map(lambda c: dict({k_: v_ for k_, v_ in c.items() if k_ != "zone" and not (k_ == "inflight" and c.get("hangup"))}, **c.get("zone", {})))
+                  "inflight": st.sampled_from([False, False, False, True]), "reauth_abandoned": st.sampled_from([0, 0, 0, 0.1, 0.8]),
+                  "zone": st.sampled_from(ZONES)}).map(lambda c: dict({k_: v_ for k_, v_ in c.items() if k_ != "zone" and not (k_ == "inflight" and (c.get("hangup") or c.get("reauth_abandoned")))}, **c.get("zone", {})))
 
 
 def run(ctx) -> None:
@@ -294,6 +308,8 @@ def run(ctx) -> None:
                         case["hangup"] = hangup
                     elif k % 2 == 0:
                         case["inflight"] = True
+                    elif version == 3:
+                        case["reauth_abandoned"] = [0.1, 0.8][k % 4 // 2]
                     ctx.check(case, lambda c: _run_one(ctx, c))
     ctx.sweep("reports pushed on the idle connection x backlog size x idle period x version; hang-up personality x idle period x host time zone x version", k, True)
     ctx.hyp("end-to-end", cases(), lambda c: _run_one(ctx, c), ctx.n(4000, 160000))
